@@ -33,7 +33,9 @@ Bad(r) ==
   \cup (IF r.fkind = "ahead" /\ r.follower.right > r.leaderRight /\
            ~\E i \in 1..Len(r.held) : r.held[i].hist = 1 /\ r.held[i].left = r.follower.left /\ r.held[i].right = r.follower.right
         THEN {"C16_AheadFollowerOverwritten"} ELSE {})
-  \cup (IF r.fkind = "ahead" /\ r.follower.right > r.leaderRight /\ r.interrupt = 0 /\ r.result # "takeover"
+  \* (the follower reports the take-over only after a 2 s pause; the leader's HANDOVER answer is the offer)
+  \cup (IF r.fkind = "ahead" /\ r.follower.right > r.leaderRight /\ r.interrupt = 0 /\ r.calls >= 2 /\ r.result # "takeover" /\
+           ~\E i \in 1..Len(r.leaderCalls) : r.leaderCalls[i] = "handover"
         THEN {"C16_AheadFollowerNotOfferedLeadership"} ELSE {})
   \* offsets of unrelated histories are not comparable: no hand-over to a foreign id
   \cup (IF Foreign(r) /\ (r.result = "takeover" \/ \E i \in 1..Len(r.leaderCalls) : r.leaderCalls[i] = "handover")
